@@ -13,6 +13,7 @@
 # limitations under the License.
 """Symbolic dict."""
 
+import copy
 import typing
 from typing import Any, Callable, Iterable, Iterator, List, Optional, Sequence, Set, Tuple, Union
 
@@ -594,7 +595,9 @@ class Dict(dict, base.Symbolic, pg_typing.CustomTyping):
     allow_partial = base.accepts_partial(self)
     if field and pg_typing.MISSING_VALUE == value:
       # NOTE(daiyip): default value is already in transformed form.
-      value = field.default_value
+      # It is copied as `Schema.apply` does, so that the value owned by this
+      # dict is never the default object held by the schema.
+      value = copy.deepcopy(field.default_value)
     else:
       value = base.from_json(
           value,
